@@ -52,9 +52,9 @@ Profile profile_for(const std::string &c) {
         set(p.w_script, {{LIFE, 10}, {MSG, 50}, {CTX, 10}, {BATCH, 6}, {STASH, 4}});
         p.mod_flag_bits = 0; p.src_kinds = 0; p.sub_flag_bits = 0;
     } else if (c == "C09") {
-        set(p.w_driver, {{SRC, 60}, {SUBS, 14}, {LIFE, 16}, {REG, 3}, {ENV, 4}});
-        set(p.w_script, {{SRC, 40}, {SUBS, 10}, {LIFE, 10}, {CTX, 6}});
-        p.mod_flag_bits = 0; p.src_kinds = 127; p.src_flag_bits = 2 | 4; p.sub_flag_bits = 2 | 4 | 16 | 32; p.bad_params = true; p.bad_topics = true;
+        set(p.w_driver, {{SRC, 56}, {SUBS, 16}, {LIFE, 14}, {REG, 3}, {ENV, 4}, {MSG, 8}});
+        set(p.w_script, {{SRC, 36}, {SUBS, 12}, {LIFE, 10}, {CTX, 8}, {MSG, 8}});
+        p.mod_flag_bits = 0; p.src_kinds = 127; p.src_flag_bits = 1 | 2 | 4; p.sub_flag_bits = 1 | 2 | 4 | 16 | 32; p.bad_params = true; p.bad_topics = true;
     } else if (c == "C13") {
         set(p.w_driver, {{BATCH, 24}, {MSG, 36}, {SUBS, 16}, {SRC, 8}, {ENV, 8}, {LIFE, 10}});
         set(p.w_script, {{BATCH, 16}, {MSG, 36}, {LIFE, 8}, {CTX, 8}, {ENV, 6}});
@@ -145,7 +145,13 @@ struct Gen {
             p.add(where, "burst", {rmod(), rmod(), (thorough || r.chance(0.4)) ? (long)r.range(8150, 8300) : (long)r.range(100, 400), r.chance(0.3) ? 1 : 0});
             break;
         case SUBS:
-            if (r.chance(0.75)) p.add(where, "sub", {rmod(), rtopic(true), rbits(pf.sub_flag_bits, 0.25)});
+            if (r.chance(0.75)) {
+                long fl = rbits(pf.sub_flag_bits, 0.25);
+                // C09 compares set sizes at call boundaries: a LOW one-shot subscription is consumed when its message is received but the
+                // event is handed over later (with the next invocation), so its membership is not observable in between: not generated there
+                if (camp == "C09" && (fl & 1)) fl &= ~16L;
+                p.add(where, "sub", {rmod(), rtopic(true), fl});
+            }
             else p.add(where, "unsub", {rmod(), rtopic(true)});
             break;
         case SRC: {
